@@ -228,6 +228,20 @@ class ViewModule:
                                   "e32s * 2 + 1", "(e16 + 1) * 65536 - 1", "e32u * 4294967297",
                                   "e32u - e16", "$max(e32s, e32u)", "(e32s < 0 ? 0 - e32s : e32s)"], r.randint(2, 5)):
                 L.append("  let ev%d = %s" % (len(L), tmpl))
+            # always present: operations MIXING an operand that needs uint32 with one that can be negative (the common
+            # C++ type of the operation is int64, not the wider-ranked of the operands' own types)
+            for tmpl in ("$max(e32s, e32u)", "(e32u > e32s ? 1 : 0)", "(e32s < e16 ? 3 : 4)", "(e32s == e32u ? 5 : 6)"):
+                L.append("  let ev%d = %s" % (len(L), tmpl))
+        # operands at LOW offsets (inside almost every buffer; they overlap the first fields, which the language allows)
+        # whose comparison / $max needs a C++ type wider than either operand's own: a uint32 against a value that can be
+        # negative.  With bytes >= 0x80 the signed operand is negative at run time.
+        if self.f("mixed_sign", 1.0):
+            L.append("  1 [+4]  UInt  mxu")
+            L.append("  5 [+1]  Int  mxs")
+            L.append("  let mx_max = $max(mxu, mxs)")
+            L.append("  let mx_gt = (mxu > mxs ? 1 : 0)")
+            L.append("  let mx_eq = (mxs == mxu ? 5 : 6)")
+            L.append("  let mx_le = mxs <= mxu")
         if self.f("requires", 0.3):
             L.append("  %d [+1]  UInt  checked" % (off + 70))
             L.append("    [requires: this != 13 && this < 250]")
